@@ -4,6 +4,7 @@ import Driver.C16
 import Driver.C08
 import Driver.C07
 import Driver.C11
+import Driver.C20
 open Lean
 
 def dispatch (prop : String) (input : Json) : Except String Json :=
@@ -13,6 +14,7 @@ def dispatch (prop : String) (input : Json) : Except String Json :=
   | "C08" => Driver.C08.handle input
   | "C07" => Driver.C07.handle input
   | "C11" => Driver.C11.handle input
+  | "C20" => Driver.C20.handle input
   | p => .error s!"no model for {p}"
 
 def handleLine (line : String) : String :=
